@@ -130,6 +130,11 @@ func runC01(c C01Case, cs *kit.CaseStats) error {
 		if aerr := node.Audit(); aerr != nil {
 			return fmt.Errorf("%s: %w", where, aerr)
 		}
+		if si%4 == 3 {
+			if qerr := node.AuditQueries(knownNodes(tr, node)); qerr != nil {
+				return fmt.Errorf("%s: %w", where, qerr)
+			}
+		}
 		newTip := node.TipNode()
 		newState := node.CM.TipState()
 		// (2) work never decreases
@@ -215,6 +220,9 @@ func runC01(c C01Case, cs *kit.CaseStats) error {
 	if err := node.FullReplayAudit(); err != nil {
 		return err
 	}
+	if err := node.AuditQueries(knownNodes(tr, node)); err != nil {
+		return err
+	}
 	if tn := node.TipNode(); tn != nil && tn.Ledger != nil {
 		if err := node.CheckAgainstLedger(tn.Ledger, c.Tree.SharedWindows); err != nil {
 			return fmt.Errorf("final: %w", err)
@@ -244,3 +252,15 @@ var c01Prop = kit.Prop[C01Case]{
 }
 
 func TestC01(t *testing.T) { c01Prop.Main(t) }
+
+// knownNodes lists up to eight tree nodes the manager knows (for queries from
+// the point of view of peers on other branches).
+func knownNodes(tr *kit.Tree, node *kit.Node) []*kit.TNode {
+	var out []*kit.TNode
+	for i := len(tr.Nodes) - 1; i >= 0 && len(out) < 8; i-- {
+		if _, ok := node.CM.State(tr.Nodes[i].ID); ok {
+			out = append(out, tr.Nodes[i])
+		}
+	}
+	return out
+}
